@@ -22,3 +22,11 @@ Fixpoint nodup_rows (l : list review) : bool :=
   end.
 Lemma panic_review_no_duplicate_rows : nodup_rows table = true.
 Proof. vm_compute. reflexivity. Qed.
+
+(* every function that owns an inventory row still has the text it had when the rows were reviewed: a changed
+   operator / argument at an existing site, or a weakened guard, changes the fingerprint *)
+Lemma panic_owner_functions_unchanged : forallb print_reviewed fn_prints = true.
+Proof. vm_compute. reflexivity. Qed.
+
+Lemma panic_owner_functions_universal : forall q, In q fn_prints -> print_reviewed q = true.
+Proof. apply forallb_forall. exact panic_owner_functions_unchanged. Qed.
